@@ -91,6 +91,25 @@ def searchDelimFrom (bnd : Bytes) (optLB : Bool) (pos : Nat) (buf : Bytes) : Opt
   | some (s, e, f) => some (s + pos, e + pos, f)
   | none => none
 
+/-- `buf.rfind(sub, start)` for a non-empty `sub`, scanning `buf` whose first byte has index `i`:
+the highest index `p ≥ start` at which `sub` occurs (`none` = -1) -/
+def rfindFrom (sub : Bytes) : Bytes → Nat → Nat → Option Nat
+  | [], _, _ => none
+  | a :: t, i, start =>
+    match rfindFrom sub t (i + 1) start with
+    | some p => some p
+    | none => if start ≤ i && sub.isPrefixOf (a :: t) then some i else none
+
+/-- the `_search_position` kept when `preamble_re` found nothing (as repaired for F01c): the usual
+`max(0, len(buffer) - len(boundary) - SEARCH_EXTRA_LENGTH)`, lowered to two bytes before the last
+`--boundary` seen at or after the previous search position, so that a delimiter whose padding or
+line break has not arrived yet stays inside the searched window -/
+def nextSearchPos (bnd buf : Bytes) (sp : Nat) : Nat :=
+  let sp0 := buf.length - bnd.length - searchExtra
+  match rfindFrom (45 :: 45 :: bnd) buf 0 sp with
+  | some p => min sp0 (p - 2)
+  | none => sp0
+
 /-- leftmost match of `BLANK_LINE_RE`: (start, end) -/
 def searchBlank : Bytes → Option (Nat × Nat)
   | [] => none
@@ -339,7 +358,7 @@ def step (d : Decoder) : Except String (Event × Decoder) :=
       .ok (.preamble (d.buffer.take s),
         { d with buffer := d.buffer.drop e, state := afterDelim f, searchPos := 0 })
     | none =>
-      .ok (.needData, { d with searchPos := d.buffer.length - d.boundary.length - searchExtra })
+      .ok (.needData, { d with searchPos := nextSearchPos d.boundary d.buffer d.searchPos })
   | .part =>
     match searchBlankFrom d.searchPos d.buffer with
     | some (s, e) =>
